@@ -1559,7 +1559,7 @@ def covariance(obs, visualize=False, correlation=False, smooth=None, **kwargs):
 
     corr = np.diag(1 / np.sqrt(np.diag(cov))) @ cov @ np.diag(1 / np.sqrt(np.diag(cov)))
 
-    if isinstance(smooth, int):
+    if isinstance(smooth, (int, np.integer)) and not isinstance(smooth, bool):
         corr = _smooth_eigenvalues(corr, smooth)
 
     if visualize:
@@ -1568,7 +1568,7 @@ def covariance(obs, visualize=False, correlation=False, smooth=None, **kwargs):
         plt.colorbar()
         plt.draw()
 
-    if correlation is True:
+    if correlation:
         return corr
 
     errors = [o.dvalue for o in obs]
